@@ -290,6 +290,39 @@ def _work(chunk):
                         stats['nontrivial'] += 1
             check_decode_string(b, out, stats)
             check_decode_string(bytearray(b), out, stats)
+    elif kind == 'json_modules':
+        # the json= constructor argument of servers and clients installs another module on Packet: typing on decode and
+        # the wire form on encode do not depend on which (standards-conforming) module that is
+        import json as _stdjson
+        from engineio import packet as _pk
+
+        class AppJSON:
+            @staticmethod
+            def dumps(*a, **k):
+                return _stdjson.dumps(*a, **k)
+
+            @staticmethod
+            def loads(*a, **k):
+                return _stdjson.loads(*a, **k)
+        saved = _pk.Packet.json
+        try:
+            for mod in (_stdjson, AppJSON):
+                _pk.Packet.json = mod
+                n0 = len(out)
+                for x in items:
+                    if isinstance(x, str):
+                        check_payload(4, x, out, stats)
+                        check_decode_string(x, out, stats)
+                        check_decode_string('4' + x, out, stats)
+                    else:
+                        check_payload(4, x, out, stats)
+                    stats['cases'] += 1
+                    stats['nontrivial'] += 1
+                for v in out[n0:]:
+                    v.text = '[Packet.json = %s] ' % ('stdlib json' if mod is _stdjson else 'application class') + v.text
+                    v.sig = dict(v.sig, trigger='custom_json_module')
+        finally:
+            _pk.Packet.json = saved
     elif kind == 'history':
         for (t, d, n) in items:
             for k in range(1, n + 1):
@@ -318,6 +351,7 @@ def run(ctx):
     chunks += [('value', c) for c in parallel.split(values, 2)]
     chunks += [('bytes', c) for c in parallel.split(bts, ctx.workers)]
     chunks += [('history', c) for c in parallel.split(hist, ctx.workers)]
+    chunks += [('json_modules', json_lookalikes() + values + ['', 'plain', '0', '-7', '1e3', 'true', 'null'])]
     res = parallel.pmap_chunks(_work, chunks, ctx.workers, ctx.seed)
     tot = {}
     nviol = 0
@@ -337,7 +371,7 @@ def run(ctx):
                 '(and, when it decodes to an API payload, re-encoded on both channels in both orders and compared with the canonical form) '
                 'to the decoder as a representation (plain and prefixed 4/7/b); every '
                 'sequence of <= %d encode calls over {raw,b64,Payload.encode} on %d '
-                'representative packets. A case is non-trivial when its payload is '
+                'representative packets; the JSON look-alikes and values again with Packet.json set to the standard library module and to an application class (the json= option). A case is non-trivial when its payload is '
                 'non-empty (distinct by construction of the enumeration).'
                 % (n, len(ALPHA), len(json_lookalikes()), len(values), hist_n, len(reps)),
         'samples': [{'type': 4, 'data': '{"a":1}'}, {'type': 2, 'data': 'probe'},
